@@ -26,6 +26,12 @@ CLAIMED = {
         text="Theorems (all sizes, bounds, steps): a slice selects exactly the Python range in order and stays inside the register once its ends are validated; whole registers resolve to 0..size-1; out-of-range indices are rejected; broadcasting splits into consecutive groups of the gate's arity losing nothing; an operation with a repeated operand is never accepted. They are about the model; the model is tied to the code by running both on every (size<=3/5, index form, bounds) combination, broadcast shapes, every subroutine-argument shape and random basis-gate programs with aliases/loops/subroutines, comparing emitted statements exactly. A disagreement is reported as a C02 violation when the per-bit operation sequences differ.",
         ref="DESIGN.md §6/C02",
         note=LANG_NOTE + "The full refinement to a reference semantics (per-bit sequence equality as a theorem) is not proved; that clause rests on the correspondence."),
+    "C04": dict(
+        engine="coq-lang",
+        technique="Coq theorems (one per error class) on the visitor model + exact correspondence with pyqasm over the (error class x syntactic context) product",
+        text="Twenty theorems state, for the model of the visitor, that each catalogue situation (undeclared / uninitialised / redeclared / keyword names, assignment to constants, out-of-range and duplicated operands, values outside the declared range, duplicate gate/subroutine/include definitions, unsupported statements, undeclared subroutine and argument counts, measurement without target, the OpenQASM 2 whitelist) makes the visit fail with ValidationError and that statement sequences propagate the failure. The model is tied to the code by running both on 111 error classes x 13 syntactic contexts (top level, if/else arms, first loop iteration, switch case/default, subroutine body and blocks inside it, measurement-conditioned block), one injected error each; independently of the model, every such program must be rejected with ValidationError by validate() and by unroll().",
+        ref="DESIGN.md §6/C04, Appendix A",
+        note=LANG_NOTE + "The theorems are per check site; the global statement 'no program containing a catalogue error is accepted' is established on the enumerated product, not as one theorem."),
     "C08": dict(
         engine="coq-lang",
         technique="Coq theorems on the model's scope machinery and loop ranges + exact correspondence with pyqasm on enumerated ranges, scope shapes and call sequences",
